@@ -321,12 +321,15 @@ Definition cmp (m : mb) (other : option mb) : res Z :=
     if c =? 0 then Ok (cmp_z (len m) (len o)) else Ok (sgn c)
   end.
 
-(* spif_mbuff_cmp_with_ptr (mbuff.c:445): memcmp over the first n bytes of the buffer.
-   ncmp_with_ptr (mbuff.c:509) is a call of this function. *)
+(* spif_mbuff_cmp_with_ptr (mbuff.c:445), repaired: memcmp over the first n bytes of the buffer,
+   never more than the allocation holds; if all of those match and n is larger the object is the
+   shorter sequence.  ncmp_with_ptr (mbuff.c:509) is a call of this function. *)
 Definition cmp_with_ptr (m : mb) (p : option buf) (n : Z) : res Z :=
   match p with
   | None => Ok 1
-  | Some _ => c <- memcmp (buff m) p n ;; Ok (sgn c)
+  | Some _ =>
+    c <- memcmp (buff m) p (Z.min n (size m)) ;;
+    if (c =? 0) && (size m <? n) then Ok (-1) else Ok (sgn c)
   end.
 
 (* spif_mbuff_ncmp (mbuff.c:496), repaired: a count that is negative or exceeds either
@@ -761,7 +764,9 @@ Definition spec_step (s : list byte) (o : op) : out * list byte :=
   | Subbuff i c => (OObj (s_sub s i c), s)
   | SubbuffPtr i c => (OPtr (option_map (fun x => x ++ [0]) (s_sub s i c)), s)
   | Trim => (OBool true, s_trim s)
-  | Reverse => (OBool (negb (length s =? 0)%nat), rev s)
+  (* FALSE for a NULL buffer, TRUE otherwise: on the empty sequence the answer depends on which
+     of the two empty representations the object has, and is left open (OUnit) *)
+  | Reverse => (match s with [] => OUnit | _ => OBool true end, rev s)
   | Clear c => (OBool true, repeat c (length s))
   | Sprintf FNull => (OBool false, [])
   | Sprintf FEmpty => (OBool true, [])
@@ -784,3 +789,46 @@ Fixpoint spec_run (s : list byte) (ops : list op) : list out * list byte :=
   | [] => ([], s)
   | o :: r => let '(x, s1) := spec_step s o in let '(xs, s2) := spec_run s1 r in (x :: xs, s2)
   end.
+
+(* ------------------------------------------------------------------------------------ *)
+(* invariant and the domain of the theorems                                              *)
+(* ------------------------------------------------------------------------------------ *)
+(* m holds exactly the bytes s: either the NULL/0/0 object, or a block whose first len cells
+   are the initialised bytes s and whose length (the allocation) is size *)
+Definition Rep (m : mb) (s : list byte) : Prop :=
+  (buff m = None /\ s = [] /\ len m = 0 /\ size m = 0) \/
+  (exists rest, buff m = Some (bytes s ++ rest) /\ len m = zlen s /\
+                size m = zlen s + Z.of_nat (length rest)).
+Definition Inv (m : mb) : Prop := exists s, Rep m s.
+
+(* caller contracts: a (pointer, length) pair describes a readable block of at least that many
+   bytes; another object handed in is a well-formed mbuff *)
+Definition ptr_ok (p : ptr) (n : Z) : Prop := forall q, p = Some q -> 0 <= n <= zlen q.
+Definition other_ok (o : option mb) : Prop := forall x, o = Some x -> Inv x.
+
+Definition ctor_ok (c : ctor) : Prop :=
+  match c with
+  | CPtr p n | CBuff p n _ => ptr_ok p n
+  | _ => True
+  end.
+
+(* s is the ideal content at the moment the operation is issued *)
+Definition op_ok (s : list byte) (o : op) : Prop :=
+  match o with
+  | Append x | Prepend x | Splice _ _ x | Cmp x | Ncmp x _ | Find x => other_ok x
+  | AppendPtr p n | PrependPtr p n | SplicePtr _ _ p n | FindPtr p n => ptr_ok p n
+  (* cmp_with_ptr reads n bytes of the buffer whatever its length: the count must not exceed it *)
+  | CmpPtr p n | NcmpPtr p n => forall q, p = Some q -> 0 <= n <= zlen q /\ n <= zlen s
+  | SetLen n => 0 <= n <= zlen s          (* truncation only *)
+  | SetSize _ => False                    (* raw capacity write: outside the theorems *)
+  | _ => True
+  end.
+
+Fixpoint ops_ok (s : list byte) (ops : list op) : Prop :=
+  match ops with
+  | [] => True
+  | o :: r => op_ok s o /\ ops_ok (snd (spec_step s o)) r
+  end.
+
+(* an output agrees with the ideal one; OUnit leaves the value open *)
+Definition out_ok (x : mout) (y : out) : Prop := y = OUnit \/ out_abs x = y.
